@@ -20,7 +20,7 @@ import (
 	"github.com/flamego/flamego/verifharness/internal/rt"
 )
 
-const rule = "case = one handler of a supported return shape (string, []byte, error, *string, named string, any holding a string, (int,string), (int,[]byte), (int,error), (string,error), ([]byte,error); func() (int,string) both as the auto-wrapped fast path and as a named func type invoked reflectively) optionally flushing, sending a status line or writing itself first and then returning generated values (arbitrary bytes, occasionally 0.5..70 KB of them, empty, nil, nil/non-nil errors of 4 concrete types incl. one with an empty message, status 100..999), placed as middleware, group handler, route handler or action, followed by a marker handler; optionally a custom ReturnHandler mapped at application or request scope. " +
+const rule = "case = one handler of a supported return shape (string, []byte, error (from func() and from func(Context)), *string, named string, any holding a string, (int,string), (int,[]byte), (int,error), (string,error), ([]byte,error); func() (int,string) both as the auto-wrapped fast path and as a named func type invoked reflectively) optionally flushing, sending a status line or writing itself first and then returning generated values (arbitrary bytes, occasionally 0.5..70 KB of them, empty, nil, nil/non-nil errors of 4 concrete types incl. one with an empty message, status 100..999), placed as middleware, group handler, route handler or action, followed by a marker handler; optionally a custom ReturnHandler mapped at application or request scope. " +
 	"Oracle: an own table (status, body, chain continues?) checked on a spy writer (after the handler's own output, if any: the returned values are rendered all the same), 'marker ran <=> nothing was written', fast path == reflective path, and a custom ReturnHandler receives exactly the returned values while the table is not applied. " +
 	"non-trivial = empty / nil / zero results, a nil error in a pair, a pointer or interface result, a non-200 status, a position other than the route handler, or a custom ReturnHandler; distinct by case text"
 
@@ -92,6 +92,9 @@ func (c Case) handler(own func()) (flamego.Handler, []interface{}) {
 		return func() []byte { own(); return b }, []interface{}{b}
 	case "error":
 		return func() error { own(); return e }, []interface{}{e}
+	case "ctx_error":
+		// func(Context) error: a shape a framework may want to wrap on its own
+		return func(flamego.Context) error { own(); return e }, []interface{}{e}
 	case "pstring":
 		var p *string
 		if !c.Nil {
@@ -143,7 +146,7 @@ func (c Case) table() (status int, body string, written bool) {
 		return text(c.str())
 	case "bytes", "pstring", "any":
 		return text(s)
-	case "error":
+	case "error", "ctx_error":
 		if e != nil {
 			return 500, e.Error(), true
 		}
@@ -256,6 +259,11 @@ func checkCase(c Case) (out evid.Outcome) {
 			return evid.Fail("custom-values", "custom ReturnHandler received %d values, handler returned %d: %s", len(customGot), len(returned), desc)
 		}
 		for i, v := range customGot {
+			if !v.IsValid() {
+				// what reflect.Value.Call hands back is always a valid Value (a nil
+				// error is a valid Value of type error): a ReturnHandler may rely on it
+				return evid.Fail("custom-values", "custom ReturnHandler received an invalid reflect.Value as value %d; %s", i, desc)
+			}
 			var got interface{}
 			if v.IsValid() && (v.Kind() != reflect.Interface && v.Kind() != reflect.Ptr && v.Kind() != reflect.Slice || !v.IsNil()) {
 				got = v.Interface()
@@ -344,7 +352,7 @@ func js(v interface{}) string {
 	return string(b)
 }
 
-var shapes = []string{"string", "bytes", "error", "pstring", "named", "any", "int_string", "teapot_fast", "teapot_named", "int_bytes", "int_error", "string_error", "bytes_error"}
+var shapes = []string{"string", "bytes", "error", "ctx_error", "pstring", "named", "any", "int_string", "teapot_fast", "teapot_named", "int_bytes", "int_error", "string_error", "bytes_error"}
 
 func genCase(t *rapid.T) Case {
 	c := Case{
